@@ -280,6 +280,33 @@ def repr_case(fggs, rng, sname, dt, viols, obs, ctx):
             okr = bool(((SR.ulps(dense, ref) <= 8) | agree(dense, ref, dt)).all())
             if not okr:
                 viols.append(C.viol(f'op:{sname}:{name}', f'{name} on dense operands differs from reference', context=c))
+    # broadcasting: a 0-dim operand (what PatternedTensor.from_int gives) and one whose dimensions all have size 1
+    sv = rng.choice([v for v in pool if v == v])
+    scal = torch.tensor(sv, dtype=dtype)
+    c0 = I.PatternedTensor(scal.clone(), (), (), R.zero if rng.random() < 0.7 else rng.choice(dpool))
+    c1 = I.PatternedTensor(scal.clone(), (), tuple(I.unitAxis for _ in range(d1.ndim)), c0.default)
+    for cname, cpt in (('0dim', c0), ('unit-dims', c1)):
+        for name, op in (('add', S.add), ('mul', S.mul)):
+            for order in ('tc', 'ct'):
+                out = C.call(op, *((t1, cpt) if order == 'tc' else (cpt, t1)))
+                obs['repr_instances'] += 1
+                obs['repr_broadcast'] = obs.get('repr_broadcast', 0) + 1
+                c = dict(ctx, op=f'{name}-broadcast-{cname}-{order}', a=TP.depict(p1), scalar=repr(sv))
+                if not out['ok']:
+                    viols.append(C.viol(f"repr-exception:{sname}:{name}-broadcast:{out['exc_type']}:{out.get('where', '')}", f'{name} with a broadcast {cname} operand raised {out["exc"]}', context=c, traceback=out['tb'], p1=p1))
+                    continue
+                got = A.densify_pt(out['value'])
+                dense = op(d1.clone(), scal.expand(d1.shape).clone()) if order == 'tc' else op(scal.expand(d1.shape).clone(), d1.clone())
+                if tuple(got.shape) != tuple(dense.shape):
+                    ok = False
+                elif dense.dtype == torch.bool:
+                    ok = torch.equal(got, dense)
+                elif sname == 'log' and name == 'add':
+                    ok = bool(((SR.ulps(got, dense) <= 4) | agree(got, dense, dt)).all())
+                else:
+                    ok = bool(((got == dense) | (torch.isnan(got) & torch.isnan(dense))).all())
+                if not ok:
+                    viols.append(C.viol(f'repr:{sname}:{name}:broadcast', f'{name} of {TP.depict(p1)} and a broadcast {cname} operand {sv!r}: patterned result {C.short(got.tolist())} differs from dense {C.short(dense.tolist())}', context=c, p1=p1))
     return p1, p2
 
 
